@@ -170,6 +170,7 @@ struct Stats {
     samples_first: Vec<Value>,
     sample_last: Option<Value>,
     sample_largest: Option<(usize, Value)>,
+    sample_any: Option<Value>,
 }
 
 impl Stats {
@@ -183,6 +184,7 @@ impl Stats {
         for (k, v) in o.excluded_known { *self.excluded_known.entry(k).or_default() += v; }
         for s in o.samples_first { if self.samples_first.len() < 3 { self.samples_first.push(s); } }
         if o.sample_last.is_some() { self.sample_last = o.sample_last; }
+        if self.sample_any.is_none() { self.sample_any = o.sample_any; }
         if let Some((n, v)) = o.sample_largest {
             if self.sample_largest.as_ref().map(|(m, _)| n > *m).unwrap_or(true) { self.sample_largest = Some((n, v)); }
         }
@@ -190,6 +192,9 @@ impl Stats {
 
     fn record<C: Serialize>(&mut self, case: &C, out: &Outcome, known: Option<&str>) {
         self.evaluations += 1;
+        if self.sample_any.is_none() {
+            if let Ok(v) = serde_json::to_value(case) { self.sample_any = Some(v); }
+        }
         match out {
             Outcome::Pass { nontrivial, labels } => {
                 self.passes += 1;
@@ -476,6 +481,7 @@ pub fn check<P: Prop>(tier: Tier, seed: u64) -> Report {
     let mut samples: Vec<Value> = total.samples_first.clone();
     if let Some(v) = &total.sample_last { if !samples.contains(v) { samples.push(v.clone()); } }
     if let Some((_, v)) = &total.sample_largest { if !samples.contains(v) { samples.push(v.clone()); } }
+    if samples.is_empty() { if let Some(v) = &total.sample_any { samples.push(json!({"trivial_case": v})); } }
     let mut coverage = json!({
         "evaluations": total.evaluations,
         "distinct_nontrivial": total.distinct_nt.len(),
